@@ -85,4 +85,19 @@ def c33_terminal_name_self(case):
     return '"Self"' in par or "'Self'" in par or '"self"' in par or "'self'" in par
 
 
-PREDICATES = {f.__name__: f for f in (c33_terminal_name_self, c16_newline_not_error, c14_scnr2_restore_last_char, c15_three_atom_end)}
+def c26_lalry_unreachable(case):
+    """lalry 0.1.0 (external crate) runs into unreachable!() in its LALR(1) table construction for some grammars that are
+    not LALR(1) (conflicts involving the accept action / end of input)"""
+    a = case.get("actual") or {}
+    out = a.get("outcome", "") if isinstance(a, dict) else str(a)
+    return "entered unreachable code" in out and "lalry-0.1.0/src/lib.rs" in out
+
+
+def c19_lr_cyclic_runaway(case):
+    """an LR table whose conflicts were resolved (ambiguous grammar with empty productions, cyclic grammar): the parser
+    reduces empty productions forever"""
+    a = case.get("actual") or {}
+    return str(case.get("what", "")).startswith("runs-away/LR") and isinstance(a, dict) and a.get("resolved_conflicts") is True
+
+
+PREDICATES = {f.__name__: f for f in (c19_lr_cyclic_runaway, c26_lalry_unreachable, c33_terminal_name_self, c16_newline_not_error, c14_scnr2_restore_last_char, c15_three_atom_end)}
